@@ -1,0 +1,27 @@
+//go:build verif
+
+package orefafs
+
+// Contracts for the deductive verifier in /verif (govc): the quantified frame of C05 for the
+// namespace calls of OrefaFS.  Comments only; compiled only with the build tag "verif".
+
+// A refused namespace call has touched nothing: not the path index, not any directory map, not any
+// link count, content or mode (as for MemFS).
+//@ func (*OrefaFS).Remove
+//@   ensures[C05] r0 != nil ==> unchanged(node.children, node.nlink, node.data, node.mode, OrefaFS.nodes, MD.string.orefafs.node, MV.string.orefafs.node)
+//@ func (*OrefaFS).Mkdir
+//@   ensures[C05] r0 != nil ==> unchanged(node.children, node.nlink, node.data, node.mode, OrefaFS.nodes, MD.string.orefafs.node, MV.string.orefafs.node)
+//@ func (*OrefaFS).Link
+//@   ensures[C05] r0 != nil ==> unchanged(node.children, node.nlink, node.data, node.mode, OrefaFS.nodes, MD.string.orefafs.node, MV.string.orefafs.node)
+//@ func (*OrefaFS).Symlink
+//@   ensures[C05] r0 != nil ==> unchanged(node.children, node.nlink, node.data, node.mode, OrefaFS.nodes, MD.string.orefafs.node, MV.string.orefafs.node)
+//@ func (*OrefaFS).MkdirAll
+//@   ensures[C05] r0 != nil ==> unchanged(node.children, node.nlink, node.data, node.mode, OrefaFS.nodes, MD.string.orefafs.node, MV.string.orefafs.node)
+//@ func (*OrefaFS).Chmod
+//@   ensures[C05] r0 != nil ==> unchanged(node.children, node.nlink, node.data, node.mode, OrefaFS.nodes, MD.string.orefafs.node, MV.string.orefafs.node)
+//@ func (*OrefaFS).Truncate
+//@   ensures[C05] r0 != nil ==> unchanged(node.children, node.nlink, node.data, node.mode, OrefaFS.nodes, MD.string.orefafs.node, MV.string.orefafs.node)
+//@ func (*OrefaFS).Chtimes
+//@   ensures[C05] r0 != nil ==> unchanged(node.children, node.nlink, node.data, node.mode, OrefaFS.nodes, MD.string.orefafs.node, MV.string.orefafs.node)
+//@ func (*OrefaFS).Chown
+//@   ensures[C05] r0 != nil ==> unchanged(node.children, node.nlink, node.data, node.mode, OrefaFS.nodes, MD.string.orefafs.node, MV.string.orefafs.node)
